@@ -1,6 +1,6 @@
 SPECIFICATION Spec
 CONSTANTS
-  LegacyPlan = FALSE
+  LegacyPlan = TRUE
   CfgSet <- AllCfgs
 VIEW NoSched
 INVARIANTS InBounds Disjoint Tiling RowOrder EachOnce HeldDistinct
